@@ -86,3 +86,60 @@ func vH_dbg() {
 	n, _ := conn.Read(buf)
 	vAssert(n <= 16, "n<=16")
 }
+
+// Shaped variant: the stream is a complete RFC 1928/1929 negotiation whose
+// field lengths are case-split (1..2 methods, user and password 1..2 bytes),
+// all byte values symbolic.  Everything is at a concrete offset, so the solver
+// only reasons about contents: which method bytes, which user, which password.
+func vAuthShaped(ncred int) {
+	var creds []Credential
+	for i := 0; i < ncred; i++ {
+		creds = append(creds, vCred("cred"))
+	}
+	for nm := 1; nm <= 2; nm++ {
+		for ul := 1; ul <= 2; ul++ {
+			for pl := 1; pl <= 2; pl++ {
+				s := &Server{config: &Config{AuthOpts: Auth{IngressCredentials: creds}}}
+				in := vNondetBytes("in", 2+nm+3+ul+pl)
+				o := 2 + nm
+				vAssume(in[0] == 5 && int(in[1]) == nm && int(in[o+1]) == ul && int(in[o+2+ul]) == pl)
+				conn := &vFakeConn{in: in}
+				err := s.handleAuthentication(conn)
+				if err != nil {
+					continue
+				}
+				if ncred == 0 {
+					vAssert(len(conn.out) == 2 && conn.out[0] == 5 && conn.out[1] == 0, "no credentials configured => reply is 'no authentication' only")
+					continue
+				}
+				vAssert(len(conn.out) == 4 && conn.out[0] == 5 && conn.out[1] == 2 && conn.out[2] == 1 && conn.out[3] == 0,
+					"credentials configured => method reply 05 02 then status 01 00")
+				vAssert(in[o] == 1, "credentials configured => sub-negotiation version 1")
+				match := false
+				for _, c := range creds {
+					if len(c.User) == ul && len(c.Password) == pl {
+						same := true
+						for k := 0; k < ul; k++ {
+							if c.User[k] != in[o+2+k] {
+								same = false
+							}
+						}
+						for k := 0; k < pl; k++ {
+							if c.Password[k] != in[o+3+ul+k] {
+								same = false
+							}
+						}
+						if same {
+							match = true
+						}
+					}
+				}
+				vAssert(match, "credentials configured => the presented user/password equals ONE configured pair")
+			}
+		}
+	}
+}
+
+func vH_C11_shaped_nocred() { vAuthShaped(0) }
+func vH_C11_shaped_1cred()  { vAuthShaped(1) }
+func vH_C11_shaped_2cred()  { vAuthShaped(2) }
